@@ -10,12 +10,16 @@ LEVEL_TEXT = {
 }
 LEVEL_TEXT["C10"] = "Bounded model checking of the real deterministic building blocks (I2OSP at full 64-bit width, hash_to_scalar, KeyGen/SkToPk with its size limits, create_generators, messages_to_scalar, blind challenge) against an independent transcription of the drafts that is itself validated on all fixture files with the real crates: equality of outputs for every symbolic input of the stated small shapes. The composite operations (sign, proofs, verifiers) and thread interleavings are NOT covered by this check."
 LEVEL_TEXT["C12"] = "Bounded model checking of the real update_signature as a one-step inductive contract: for an arbitrary decodable signature (A, e), any key, any old/new octet and each concrete (n, position) shape, the result keeps e and satisfies A'(sk+e) = A(sk+e) - H_i*old + H_i*new, and out-of-range positions (up to usize::MAX) are refused without panic. By induction this gives the statement for update histories of any length; the chain itself is not executed."
+LEVEL_TEXT["C01"] = "Bounded model checking of the real sign and verify with a PROGRAMMED random oracle (every expand_message answer is a free symbolic value): sign returns Ok with e = the oracle's answer to the e-query and A(sk+e) = P1 + Q1*domain + sum H_i*m_i, survives its 80-octet encoding, and makes exactly the queries (count, message and DST lengths) the draft prescribes; verify accepts an ARBITRARY decodable (A, e) iff A(sk+e) = B. Completeness follows by composing the two contracts; None/empty header and message list take the same path (same query lengths)."
+LEVEL_TEXT["C02"] = "Bounded model checking of the real verify: the accept <=> A(sk+e) = B(pk, header, all messages) equivalence for arbitrary (A, e), sk and oracle answers (so any edit that changes an oracle query or a message scalar changes B by a non-zero multiple of a generator), plus, for an arbitrary valid signature, every one of the 640 single-bit flips of its encoding (symbolic bit index) is refused by the decoder or by verify. Cross-suite / cross-interface claims rest on query separation and are not decided here."
 NOTES = {
     "C08": "bls12_381_plus / elliptic-curve / rand are replaced by model crates (prime-order group as discrete logs mod 257, logged deterministic oracle, unconstrained randomness); generator creation and message-to-scalar hashing are stubbed by tables in operation harnesses; CBMC pointer-validity checks are ignored because zkryptium is safe Rust (checked at run time); inputs longer than the stated lengths, serde_json decoding and wall-clock time are outside.",
     "C09": "what the real bls12_381_plus accepts as a point or scalar is outside (model codecs are canonical by construction); JSON codec outside; lengths beyond the stated ranges outside.",
 }
 NOTES["C10"] = "model dependencies as for C08: equality is over the model oracle (deterministic fold) and model group, i.e. what is compared is everything zkryptium feeds to expand_message / the group (framing, DSTs, order, lengths), not SHA/SHAKE or curve arithmetic; messages/DSTs/key material restricted to a few symbolic octets per query; sign/verify/proof conformance and the 16-thread interleavings are outside (pure functions; no solver-level concurrency)."
 NOTES["C12"] = "generators come from a fixed table stub (real generator creation is checked in C10); message-to-scalar hashing is real; degenerate cases sk+e = 0 and B' = identity (probability 1/r in the real group) are excluded; the induction step from the contract to histories is an argument in DESIGN.md, not a solver query; verification of the updated signature relies on the verify relation A(sk+e) = B which is not re-checked here."
+NOTES["C01"] = "model dependencies; generators from a fixed pure table (stub, real creation checked in C10); the oracle is programmed, so WHAT is hashed is constrained only through the recorded query count and message/DST lengths here (content: C10 units); sk + e = 0 and B = identity excluded; L <= 2 (3), messages of 0-2 octets, header None/empty/1/2 octets; thousands of messages / long messages outside."
+NOTES["C02"] = "as C01; 'altered message / header => different oracle answer => different scalar' is the random-oracle assumption (not decided); other public key, other ciphersuite, plain vs blind interface are NOT covered; bit flips for L <= 2."
 TECH = "bounded model checking of the compiled Rust code (Kani 0.68 -> CBMC 6.11 -> CaDiCaL), one symbolic query per shape, counterexamples replayed on the real build"
 
 NOT_APPLICABLE = {
@@ -30,7 +34,7 @@ NOT_APPLICABLE = {
 PENDING = {}
 
 
-CLAIMED = ["C08", "C09", "C10", "C12"]
+CLAIMED = ["C01", "C02", "C08", "C09", "C10", "C12"]
 
 
 def main():
